@@ -139,6 +139,52 @@ def hdr10plus_json(r, nframes, nscenes, clean):
     return root, firsts, lens
 
 
+def madvr_file(r, nframes, nscenes, clean):
+    """a madVR measurement file (format of the madvr_parse crate, little endian): version 5 or 6, flags 2 or 3
+    (3 = per-frame custom target nits follow), scenes tiling the frames, per-frame peak and 256 + 31 bin histograms"""
+    import struct
+    ver = r.choice([5, 6])
+    flags = r.choice([2, 3, 3])
+    cuts = sorted(r.sample(range(1, nframes), nscenes - 1)) if nscenes > 1 else []
+    starts = [0] + cuts
+    ends = cuts + [nframes]                     # stored as end + 1
+    peaks = [r.choice([0, 1, 50, 99, 100, 101, 400, 1000, 4000, 10000, r.randrange(0, 10001)]) for _ in starts]
+    maxcll, maxfall = r.choice([0, 1000, 4000, 65535, 70000]), r.choice([0, 400, 1000])
+    out = bytearray(b"mvr+")
+    out += struct.pack("<6I", ver, 0, len(starts), nframes, flags, maxcll)
+    out += struct.pack("<2I", maxfall, r.randrange(0, 400))
+    if ver >= 6:
+        out += struct.pack("<I", r.choice([0, 1000]))
+    for v in starts:
+        out += struct.pack("<I", v)
+    for v in ends:
+        out += struct.pack("<I", v)
+    for v in peaks:
+        out += struct.pack("<I", v)
+    for i in range(nframes):
+        out += struct.pack("<H", r.randrange(0, 64001))
+        if ver >= 6:
+            out += struct.pack("<2H", r.randrange(0, 64001), r.randrange(0, 64001))
+        # luminance histogram in percent * 640: dark, mid or bright frames (the scene average is the max of its frames' averages)
+        kind = r.choice(["dark", "dark", "mid", "bright"])
+        lo, hi = {"dark": (0, 40), "mid": (30, 120), "bright": (100, 256)}[kind]
+        bins = [0] * 256
+        for _ in range(r.choice([1, 3, 8])):
+            bins[r.randrange(lo, hi)] += r.randrange(1, 20000)
+        if r.random() < 0.3:
+            bins[0] = r.choice([640 * 3, 640 * 10, 640 * 29, 640 * 40])     # black bars: bin 0 between 2 % and 30 % is ignored
+        tot = sum(bins)
+        bins = [min(65535, b * 64000 // tot) for b in bins]
+        out += struct.pack("<256H", *bins)
+        out += struct.pack("<31H", *[r.randrange(0, 3000) for _ in range(31)])
+    if flags == 3:
+        for i in range(nframes):
+            out += struct.pack("<H", r.choice([0, 50, 100, 400, 1000, 4000, 10000, r.randrange(0, 10001)]))
+    if not clean and r.random() < 0.3:
+        out = out[: r.randrange(4, len(out))]          # truncated file
+    return bytes(out)
+
+
 def rnd_half_away(x):
     import math
     return int(math.floor(x + 0.5)) if x >= 0 else -int(math.floor(-x + 0.5))
@@ -195,6 +241,35 @@ def run(res):
                 fl.append((rnd_half_away(peak_nits(sc, src)), rnd_half_away(sc["LuminanceParameters"]["AverageRGB"] / 10.0)))
             mp.append("hdr@%d~%s~%s" % (nfr, ",".join("%d:%d" % x for x in fl), ",".join(map(str, lens))))
             stats["hdr10plus"] += 1
+        use_madvr = (not use_hdr) and r.random() < 0.15
+        if use_madvr:
+            nfr = r.choice([1, 2, 5, 9, 14])
+            nsc = r.randint(1, min(4, nfr))
+            mfile = madvr_file(r, nfr, nsc, clean)
+            w.write("madvr.bin", mfile)
+            custom = r.random() < 0.6
+            args += ["--madvr-file", w.path("madvr.bin")] + (["--use-custom-targets"] if custom else [])
+            if "l1_avg_pq_cm_version" not in cfg and r.random() < 0.6:
+                v = r.random() < 0.4
+                cfg["l1_avg_pq_cm_version"] = "V40" if v else "V29"
+                mp.append("l1cm@%d" % (1 if v else 0))
+            mi = C.dvh().run(["madvrinfo " + mfile.hex()])[0]
+            stats["madvr"] = stats.get("madvr", 0) + 1
+            if mi.startswith("ok "):
+                t = mi.split(" ")
+                mflags, mcll, mfall, mfc = int(t[1]), int(t[2]), int(t[3]), int(t[4])
+                sc = [tuple(int(v) for v in x.split(":")) for x in t[5].split(",")] if t[5] != "-" else []
+                tg = [int(v) for v in t[6].split(",")] if t[6] != "-" else []
+                parts = []
+                for (st, ln, mx, av) in sc:
+                    e = "%d:%d:%d" % (ln, mx, av)
+                    if custom and mflags == 3:
+                        e += ":" + "+".join(str(v) for v in tg[st : st + ln])
+                    parts.append(e)
+                mp.append("madvr@%d~%s~%d:%d" % (mfc, ",".join(parts), mcll, mfall))
+                lens, firsts = [x[1] for x in sc], [x[0] for x in sc]
+            else:
+                mp.append("madvrerr")
         w.write("cfg.json", json.dumps(cfg).encode())
         if os.path.exists(w.path("out.bin")):
             os.remove(w.path("out.bin"))
@@ -203,13 +278,15 @@ def run(res):
         rp = {"config": cfg, "args": args[1:], "model_config": "/".join(mp)}
         if use_hdr:
             rp["hdr10plus"] = root
+        if use_madvr:
+            rp["madvr_hex"] = mfile.hex()
         key = (prof, cm40)
         if key not in bases:
             o = C.dvh().run(["genbase %d %d" % (prof, 1 if cm40 else 0)])[0]
             if not o.startswith("ok "):
                 raise RuntimeError("genbase failed: " + o)
             bases[key] = o[3:]
-        m = C.model().run(["gen %s %s" % ("/".join(mp) or "-", bases[key])])[0]
+        m = "err" if "madvrerr" in mp else C.model().run(["gen %s %s" % ("/".join(mp) or "-", bases[key])])[0]
         if m.startswith("modelfail"):
             raise RuntimeError("model failure: " + m + " on " + "/".join(mp)[:300])
         if ec not in ("0", "1"):
@@ -227,6 +304,8 @@ def run(res):
             res.violation("generate exits 1 (%s) where the model succeeds, config %s" % (txt.split("Stack backtrace")[0][-200:].replace("\n", " "), json.dumps(cfg)[:300]), rp)
             continue
         stats["ok"] += 1
+        if use_madvr:
+            stats["madvr_ok"] = stats.get("madvr_ok", 0) + 1
         got = [x.rstrip(b"\x00") for x in R.read_rpu_file_raw(w.path("out.bin"))] if os.path.getsize(w.path("out.bin")) else []
         exp = [R.unescape(C.unhexs(x))[2:].rstrip(b"\x00") for x in m[3:].split(",")] if m != "ok -" else []
         stats["frames"] += len(got)
@@ -236,7 +315,7 @@ def run(res):
             continue
         # ---- direct checks: count, parseable, profile, scene cuts
         shots = cfg.get("shots") or []
-        if use_hdr:
+        if use_hdr or use_madvr:
             durs = lens[: len(firsts)]
             n_exp = nfr
         else:
@@ -272,7 +351,7 @@ def run(res):
     res.coverage.update({
         "evaluations": nrun * 2,
         "distinct_nontrivial": ncase,
-        "rule": "generator configs built field by field: cm_version given/omitted, profile 5 / 8.1 / 8.4 by both spellings, long_play_mode, source min/max PQ, l1_avg_pq_cm_version, level5, level6 (incl. values deriving source levels), default blocks of every level, 0..5 shots with durations 0..9 in any order, frame edits at offset 0 / last / beyond the shot / duplicated, L1 values inside and outside the legal ranges, length given / omitted / inconsistent; CLI overrides -p and --long-play-mode; 30% with an HDR10+ JSON of 1..14 frames and 1..4 scenes (first-frame offsets, all four peak sources, inconsistent summary arrays, scene averages between the CM v2.9 and v4.0 avg_pq floors, l1_avg_pq_cm_version differing from cm_version); output compared RPU by RPU with the Coq model (base RPU of the profile taken from the implementation's empty config), and directly: count = requested length, every RPU parses, profile, CM version, scene-cut flag on the first frame of each shot or on every frame in long-play mode",
+        "rule": "generator configs built field by field: cm_version given/omitted, profile 5 / 8.1 / 8.4 by both spellings, long_play_mode, source min/max PQ, l1_avg_pq_cm_version, level5, level6 (incl. values deriving source levels), default blocks of every level, 0..5 shots with durations 0..9 in any order, frame edits at offset 0 / last / beyond the shot / duplicated, L1 values inside and outside the legal ranges, length given / omitted / inconsistent; CLI overrides -p and --long-play-mode; 30% with an HDR10+ JSON of 1..14 frames and 1..4 scenes (first-frame offsets, all four peak sources, inconsistent summary arrays, scene averages between the CM v2.9 and v4.0 avg_pq floors, l1_avg_pq_cm_version differing from cm_version); 15% with a madVR measurement file (versions 5 / 6, flags 2 / 3, 1..4 scenes, dark / mid / bright histograms, black bars, --use-custom-targets, header MaxCLL / MaxFALL filling the config's L6; scene and frame statistics as the madvr_parse crate derives them are inputs of the model); output compared RPU by RPU with the Coq model (base RPU of the profile taken from the implementation's empty config), and directly: count = requested length, every RPU parses, profile, CM version, scene-cut flag on the first frame of each shot or on every frame in long-play mode",
         "cli_runs": nrun, "outcomes": stats,
     })
     res.assumptions += ["the per-profile base RPU (header / mapping / DM presets of profiles/*.rs) is an input of the model taken from the implementation for the empty config",
